@@ -63,11 +63,28 @@ static void tok_use(const __mpz_struct *z)
 #endif
 }
 
-static int fit(long long v, const char *msg)
+/* QSV_NARROW (bounded arithmetic groups): every product is taken in 32 bits with both operands
+ * ASSERTED to be below 2^15 in magnitude and every result asserted below 2^30, so the SAT encoding
+ * carries 32-bit instead of 64-bit multipliers; nothing is assumed, a value outside the range is
+ * a failed obligation of the model. */
+#ifdef QSV_NARROW
+typedef int wide;
+#define OPND(v) MODEL_ASSERT((v) > -32768 && (v) < 32768, "gmp model (narrow): multiplication operand below 2^15")
+static int fit(wide v, const char *msg)
+{
+	MODEL_ASSERT(v > -1073741824 && v < 1073741824, "gmp model (narrow): exact result below 2^30");
+	return v;
+}
+#else
+typedef long long wide;
+#define OPND(v) ((void) 0)
+static int fit(wide v, const char *msg)
 {
 	MODEL_ASSERT(v >= -2147483647LL && v <= 2147483647LL, "gmp model: exact result fits the 32-bit payload");
 	return (int) v;
 }
+#endif
+static wide MUL(int a, int b) { OPND(a); OPND(b); return (wide) a * (wide) b; }
 
 /* ------------------------------------------------------------------ mpq */
 void __gmpq_init(mpq_ptr a) { NUM(a) = 0; DEN(a) = 1; tok_init(&a->_mp_num); a->_mp_den._mp_alloc = 1; a->_mp_den._mp_d = 0; }
@@ -85,32 +102,36 @@ void __gmpq_canonicalize(mpq_ptr a)
 
 #ifdef QSV_GMP_EXACT
 int __gmpq_equal(mpq_srcptr a, mpq_srcptr b)
-{ return (long long) NUM(a) * DEN(b) == (long long) NUM(b) * DEN(a); }
+{ if (DEN(a) == DEN(b)) return NUM(a) == NUM(b); return MUL(NUM(a), DEN(b)) == MUL(NUM(b), DEN(a)); }
 int __gmpq_cmp(mpq_srcptr a, mpq_srcptr b)
-{ long long l = (long long) NUM(a) * DEN(b), r = (long long) NUM(b) * DEN(a); return l < r ? -1 : l > r; }
+{ wide l, r; if (DEN(a) == DEN(b)) { l = NUM(a); r = NUM(b); } else { l = MUL(NUM(a), DEN(b)); r = MUL(NUM(b), DEN(a)); } return l < r ? -1 : l > r; }
 int __gmpq_cmp_ui(mpq_srcptr a, unsigned long n, unsigned long d)
-{ long long l = (long long) NUM(a) * (long long) d, r = (long long) n * DEN(a); return l < r ? -1 : l > r; }
+{ wide l, r; if (d == 1 && DEN(a) == 1) { l = NUM(a); r = (wide) n; } else { l = MUL(NUM(a), (int) d); r = MUL((int) n, DEN(a)); } return l < r ? -1 : l > r; }
 int __gmpq_cmp_si(mpq_srcptr a, long n, unsigned long d)
-{ long long l = (long long) NUM(a) * (long long) d, r = (long long) n * DEN(a); return l < r ? -1 : l > r; }
+{ wide l, r; if (d == 1 && DEN(a) == 1) { l = NUM(a); r = (wide) n; } else { l = MUL(NUM(a), (int) d); r = MUL((int) n, DEN(a)); } return l < r ? -1 : l > r; }
 void __gmpq_add(mpq_ptr r, mpq_srcptr a, mpq_srcptr b)
 {
-	if (DEN(a) == DEN(b)) { int d = DEN(a); NUM(r) = fit((long long) NUM(a) + NUM(b), "add"); DEN(r) = d; return; }
-	{ long long n = (long long) NUM(a) * DEN(b) + (long long) NUM(b) * DEN(a), d = (long long) DEN(a) * DEN(b);
+	if (DEN(a) == DEN(b)) { int d = DEN(a); NUM(r) = fit((wide) NUM(a) + NUM(b), "add"); DEN(r) = d; return; }
+	{ wide n = MUL(NUM(a), DEN(b)) + MUL(NUM(b), DEN(a)), d = MUL(DEN(a), DEN(b));
 		NUM(r) = fit(n, "add"); DEN(r) = fit(d, "add"); }
 }
 void __gmpq_sub(mpq_ptr r, mpq_srcptr a, mpq_srcptr b)
 {
-	if (DEN(a) == DEN(b)) { int d = DEN(a); NUM(r) = fit((long long) NUM(a) - NUM(b), "sub"); DEN(r) = d; return; }
-	{ long long n = (long long) NUM(a) * DEN(b) - (long long) NUM(b) * DEN(a), d = (long long) DEN(a) * DEN(b);
+	if (DEN(a) == DEN(b)) { int d = DEN(a); NUM(r) = fit((wide) NUM(a) - NUM(b), "sub"); DEN(r) = d; return; }
+	{ wide n = MUL(NUM(a), DEN(b)) - MUL(NUM(b), DEN(a)), d = MUL(DEN(a), DEN(b));
 		NUM(r) = fit(n, "sub"); DEN(r) = fit(d, "sub"); }
 }
 void __gmpq_mul(mpq_ptr r, mpq_srcptr a, mpq_srcptr b)
-{ long long n = (long long) NUM(a) * NUM(b), d = (long long) DEN(a) * DEN(b); NUM(r) = fit(n, "mul"); DEN(r) = fit(d, "mul"); }
+{
+	wide n = MUL(NUM(a), NUM(b)), d = (DEN(a) == 1 && DEN(b) == 1) ? 1 : MUL(DEN(a), DEN(b));
+	NUM(r) = fit(n, "mul"); DEN(r) = fit(d, "mul");
+}
 void __gmpq_div(mpq_ptr r, mpq_srcptr a, mpq_srcptr b)
 {
-	long long n, d;
+	wide n, d;
 	MODEL_ASSERT(NUM(b) != 0, "gmp: mpq_div by zero");
-	n = (long long) NUM(a) * DEN(b); d = (long long) DEN(a) * NUM(b);
+	if (DEN(b) == 1 && (NUM(b) == 1 || NUM(b) == -1)) { n = NUM(b) == 1 ? (wide) NUM(a) : -(wide) NUM(a); d = DEN(a); }
+	else { n = MUL(NUM(a), DEN(b)); d = MUL(DEN(a), NUM(b)); }
 	if (d < 0) { n = -n; d = -d; }
 	NUM(r) = fit(n, "div"); DEN(r) = fit(d, "div");
 }
@@ -152,13 +173,13 @@ void __gmpz_init_set_ui(mpz_ptr z, unsigned long v) { tok_init(z); z->_mp_size =
 int __gmpz_cmp(mpz_srcptr a, mpz_srcptr b) { return a->_mp_size < b->_mp_size ? -1 : a->_mp_size > b->_mp_size; }
 int __gmpz_cmp_ui(mpz_srcptr a, unsigned long b) { return a->_mp_size < (long) b ? -1 : a->_mp_size > (long) b; }
 #ifdef QSV_GMP_EXACT
-void __gmpz_mul_ui(mpz_ptr r, mpz_srcptr a, unsigned long b) { r->_mp_size = fit((long long) a->_mp_size * (long long) b, "mpz_mul_ui"); }
-void __gmpz_mul(mpz_ptr r, mpz_srcptr a, mpz_srcptr b) { r->_mp_size = fit((long long) a->_mp_size * b->_mp_size, "mpz_mul"); }
-void __gmpz_add(mpz_ptr r, mpz_srcptr a, mpz_srcptr b) { r->_mp_size = fit((long long) a->_mp_size + b->_mp_size, "mpz_add"); }
-void __gmpz_sub(mpz_ptr r, mpz_srcptr a, mpz_srcptr b) { r->_mp_size = fit((long long) a->_mp_size - b->_mp_size, "mpz_sub"); }
-void __gmpz_add_ui(mpz_ptr r, mpz_srcptr a, unsigned long b) { r->_mp_size = fit((long long) a->_mp_size + (long long) b, "mpz_add_ui"); }
-void __gmpz_addmul_ui(mpz_ptr r, mpz_srcptr a, unsigned long b) { r->_mp_size = fit((long long) r->_mp_size + (long long) a->_mp_size * (long long) b, "mpz_addmul_ui"); }
-void __gmpz_submul_ui(mpz_ptr r, mpz_srcptr a, unsigned long b) { r->_mp_size = fit((long long) r->_mp_size - (long long) a->_mp_size * (long long) b, "mpz_submul_ui"); }
+void __gmpz_mul_ui(mpz_ptr r, mpz_srcptr a, unsigned long b) { r->_mp_size = fit(MUL(a->_mp_size, (int) b), "mpz_mul_ui"); }
+void __gmpz_mul(mpz_ptr r, mpz_srcptr a, mpz_srcptr b) { r->_mp_size = fit(MUL(a->_mp_size, b->_mp_size), "mpz_mul"); }
+void __gmpz_add(mpz_ptr r, mpz_srcptr a, mpz_srcptr b) { r->_mp_size = fit((wide) a->_mp_size + b->_mp_size, "mpz_add"); }
+void __gmpz_sub(mpz_ptr r, mpz_srcptr a, mpz_srcptr b) { r->_mp_size = fit((wide) a->_mp_size - b->_mp_size, "mpz_sub"); }
+void __gmpz_add_ui(mpz_ptr r, mpz_srcptr a, unsigned long b) { r->_mp_size = fit((wide) a->_mp_size + (wide) b, "mpz_add_ui"); }
+void __gmpz_addmul_ui(mpz_ptr r, mpz_srcptr a, unsigned long b) { r->_mp_size = fit((wide) r->_mp_size + MUL(a->_mp_size, (int) b), "mpz_addmul_ui"); }
+void __gmpz_submul_ui(mpz_ptr r, mpz_srcptr a, unsigned long b) { r->_mp_size = fit((wide) r->_mp_size - MUL(a->_mp_size, (int) b), "mpz_submul_ui"); }
 void __gmpz_ui_pow_ui(mpz_ptr r, unsigned long b, unsigned long e)
 { long long v = 1; unsigned long i; for (i = 0; i < e; i++) { v *= (long long) b; MODEL_ASSERT(v <= 2147483647LL, "gmp model: mpz_ui_pow_ui fits"); } r->_mp_size = (int) v; }
 #else
